@@ -81,6 +81,9 @@ def run_one(v):
         os.makedirs(root)
         shutil.copytree('/repo/src', os.path.join(root, 'src'),
                         ignore=shutil.ignore_patterns('*.so', '__pycache__', '*.pyc', 'libffi_*'))
+        for fn in os.listdir('/repo'):
+            if os.path.isfile(os.path.join('/repo', fn)) and not fn.startswith('.'):
+                shutil.copy2(os.path.join('/repo', fn), os.path.join(root, fn))
         err = apply_edits(root, v['edits'])
         if err:
             return v, 'BROKEN-VARIANT', err, ''
